@@ -30,6 +30,9 @@ type Server struct {
 	writeTimeout   time.Duration
 	onCloseHandler OnCloseHandler
 
+	connsMu sync.Mutex
+	conns   map[int]*conn // conns being served, so Stop can interrupt them
+
 	disablePanicRecovery bool
 	shutdownCancel       context.CancelFunc
 	shutdownCtx          context.Context
@@ -198,7 +201,9 @@ func (s *Server) Run(addr string, opt ...Option) error {
 			return fmt.Errorf("%s: unable to create in-memory conn: %w", op, err)
 		}
 		conn.recoverPanics = !s.disablePanicRecovery
+		conn.rawConn = c
 		localConnID := connID
+		s.trackConn(localConnID, conn)
 		go func() {
 			defer func() {
 				// Stop waits on connWg: release it only once the conn is closed
@@ -207,6 +212,7 @@ func (s *Server) Run(addr string, opt ...Option) error {
 					s.logger.Debug("connWg done", "op", op, "conn", localConnID)
 					s.connWg.Done()
 				}()
+				s.untrackConn(localConnID)
 				err := conn.close()
 				if err != nil {
 					s.logger.Error("error closing conn", "op", op, "conn", localConnID, "conn/req", "err", err)
@@ -280,6 +286,9 @@ func (s *Server) Stop() error {
 		s.logger.Debug("shutdown cancel func")
 		s.shutdownCancel()
 	}
+	// don't depend on clients to close their connections: unblock every conn
+	// that is waiting on its client
+	s.interruptConns()
 	s.logger.Debug("waiting on connections to close")
 	s.connWg.Wait()
 	s.logger.Debug("stopped")
@@ -297,4 +306,37 @@ func (s *Server) Router(r *Mux) error {
 	defer s.mu.Unlock()
 	s.router = r
 	return nil
+}
+
+// trackConn registers a conn that is being served.  A conn that shows up after
+// Stop made its pass is interrupted right away.
+func (s *Server) trackConn(id int, c *conn) {
+	s.connsMu.Lock()
+	defer s.connsMu.Unlock()
+	if s.conns == nil {
+		s.conns = map[int]*conn{}
+	}
+	s.conns[id] = c
+	select {
+	case <-s.shutdownCtx.Done():
+		c.interrupt()
+	default:
+	}
+}
+
+func (s *Server) untrackConn(id int) {
+	s.connsMu.Lock()
+	defer s.connsMu.Unlock()
+	delete(s.conns, id)
+}
+
+// interruptConns unblocks every conn that is waiting on its client (idle,
+// half-way through a frame, in a TLS handshake or not reading its responses),
+// so that Stop returns whatever clients are doing.
+func (s *Server) interruptConns() {
+	s.connsMu.Lock()
+	defer s.connsMu.Unlock()
+	for _, c := range s.conns {
+		c.interrupt()
+	}
 }
